@@ -57,20 +57,22 @@ PROPS = {
     },
     "C17": {
         "level": "other",
-        "explanation": "Narrow claim on one mechanism -- 'locate by hash then equality scan' -- decided by Verus contracts on the real text of XMapping::locate and XSet::locate (the structs and KeyLocation are the real definitions): the location of a key is Vacant exactly when the table has no bucket for the key's hash, and otherwise the outcome of scanning THAT bucket in order with the user's equality: Found at the first index whose key is equal, the error value of the first comparison that fails before that, Missing when none is equal; an error value or an out-of-range answer of the hash function is the result as an error value. Lookup therefore behaves as lookup in the association list of the key's hash class whatever else the table holds (collisions, other buckets, layout). NOT decided: that insertion / overwrite / removal / bulk update keep the table a finite map (try_put_located returns a reference into `&mut self`, outside Verus' dialect; removal and the set algebra are iterator towers over HashMap or written in the xray language), `len` maintenance, persistence of earlier versions, and consistency requirements on the user's hash / eq.",
+        "explanation": "Narrow claim on the hash-table representation of mappings and sets, decided by Verus contracts on real text (the structs, KeyLocation and the bucket aliases are the real definitions). (1) Lookup: XMapping::locate and XSet::locate answer Vacant exactly when the table has no bucket for the key's hash, and otherwise the outcome of scanning THAT bucket in order with the user's equality: Found at the first index whose key is equal, the error value of the first comparison that fails before that, Missing when none is equal; an error value or an out-of-range answer of the hash function is the result as an error value. (2) Insertion / overwrite: XMapping::try_put_located stores the callback's value at a valid location -- Found: the pair keeps its key and gets the value, nothing else changes, len unchanged; Missing: (k, v) appended to the bucket, len + 1; Vacant: a new bucket, len + 1; an error value or violation of the callback is handed on and NOTHING changes -- and put_located / put / try_put do the same through locate; XMapping::get reads the value at a location. (3) Bulk update: XSet::with_update and XMapping::with_update (whole bodies, loop invariant) return a NEW collection that satisfies the representation invariant (len is the number of stored entries, every key lies in the bucket of its own hash, no empty bucket), retains every key of the receiver in place, holds every item afterwards, adds a key only when equality answered false for every key stored before it in its bucket (no duplicates), and -- for mappings -- stores for every key the receiver's value or the value of an item that hit it, the most recent item being what a lookup of its key finds (last one wins). NOT decided: removal, the natives around these methods, the set algebra and the helpers written in the xray language, consistency requirements on the user's hash / eq (the contracts hold for ANY hash / eq that answer an Int / a Bool).",
         "units": [
             {"kind": "verus", "unit": "locate"},
             {"kind": "verus", "unit": "slocate"},
             {"kind": "verus", "unit": "setupd"},
+            {"kind": "verus", "unit": "mapupd"},
         ],
         "unreached": [
-            "XMapping::{try_put_located, put, with_update}, XSet::with_update: insertion / overwrite and `len` maintenance (references into `&mut self`, HashMap::get_mut / entry)",
             "removal paths (pop / discard / remove) and bulk operations: HashMap::from_iter over filter / map / chain towers in native closures",
+            "the native closures around with_update / put / try_put (set, set_default, update, update_from_keys, add: argument evaluation, downcasts, pre-flight checks); XMapping::new callers; iteration order of `iter`",
             "set algebra and mapping helpers written in the xray language (include.rs); derived eq / hash of mappings and sets",
-            "that every update returns a new collection and leaves earlier versions unchanged",
+            "that the representation invariant holds of every collection a program can build (it is a precondition of with_update; `mapping()` / `set()` start from the empty table, where it holds)",
         ],
         "assumptions": ["the evaluator as a deterministic function `apply`; hash answers an Int, eq a Bool (type facts, C01)",
-                        "std HashMap<u64, _>::get by vstd's specification; slice::Iter / enumerate by the finite iterator model (trusted)"],
+                        "std HashMap<u64, _>::get by vstd's specification (V-locate) resp. a model HashMap with get / get_mut / insert / entry().or_insert() / clone / index by their documented meaning (V-setupd, V-mapupd); slice::Iter / enumerate by the finite iterator model; `total` (sum of the bucket lengths of a finite map) by one axiom; the item stream of with_update is finite; len + number of items < usize::MAX (trusted)",
+                        "V-setupd / V-mapupd use `locate` through the postcondition V-slocate / V-locate prove (restated with the inner quantifier named `all_false`)"],
     },
     "C18": {
         "level": "other",
@@ -287,9 +289,9 @@ CLAIMS = {
     },
     "C17": {
         "engine": "vx+verus",
-        "technique": "contract-based deductive verification: Verus contracts on the real text of XMapping::locate and XSet::locate (structs and KeyLocation extracted; std HashMap<u64,_> by vstd's specification; finite iterator model for the bucket scan)",
-        "text": "Narrow (one mechanism): the location of a key is proved to be Vacant exactly when there is no bucket for its hash and otherwise the outcome of the in-order equality scan of that bucket (first equal key: Found with its index; a failing comparison before that: its error value; none: Missing), for every table content, hash and equality function.",
-        "note": "Insertion, overwrite, removal, len maintenance, persistence of versions and the set algebra are listed as unreached; the evaluator is a deterministic function `apply`.",
+        "technique": "contract-based deductive verification: Verus contracts on the real text of XMapping::{locate, get, try_put_located, put_located, put, try_put, with_update} and XSet::{locate, with_update} (structs, KeyLocation, bucket aliases extracted; loop invariants with proved lemmas; HashMap by vstd's specification resp. a model with get_mut / entry; finite iterator model for the bucket scan)",
+        "text": "Narrow (the hash-table representation): insertion / overwrite through a location (try_put_located, put, try_put) and the bulk updates of sets and mappings (with_update) are proved to keep the representation invariant, to retain every key in place, to add a key only when no stored key of its bucket is equal, to count len exactly, and to leave the table unchanged when a callback fails; the location of a key is proved to be Vacant exactly when there is no bucket for its hash and otherwise the outcome of the in-order equality scan of that bucket (first equal key: Found with its index; a failing comparison before that: its error value; none: Missing), for every table content, hash and equality function.",
+        "note": "Removal, the surrounding native closures and the set algebra are listed as unreached; the evaluator is a deterministic function `apply`.",
     },
     "C18": {
         "engine": "vx+verus",
